@@ -7,7 +7,8 @@ from dimod.variables import Variables
 import wlib
 from wlib import clist, cnat, cz, cbool, copt, cpair
 
-ALPHABET = [0, 1, 2, 3, 4, 5, 6, 9, -1, 'a', 'b', 'c', 'd', ('t', 1), ('t', 2), 1.5]
+# -1/-2 are distinct labels with equal CPython hashes; so are the tuples (-1,)/(-2,)
+ALPHABET = [0, 1, 2, 3, 4, 5, 6, 9, -1, -2, 'a', 'b', 'c', 'd', ('t', 1), ('t', 2), (-1,), (-2,), 1.5]
 ALIASES = {1: [1.0, 'np1'], 2: [2.0], 3: ['np3'], 0: [0.0]}
 
 
@@ -119,7 +120,30 @@ def gen_case0(rng, tier):
             steps.append(["remove", rand_label(rng)])
         else:
             steps.append(["clear"])
-    return {"init": init, "steps": steps}
+    return {"init": init, "steps": steps, "slices": rand_slices(rng)}
+
+
+DEFAULT_SLICES = [[1, None, None], [None, 2, None], [None, None, 2], [None, -1, None], [None, None, -1], [-2, 9, None]]
+
+
+def rand_slices(rng):
+    """slice probes asked after every operation: missing, negative, out-of-range bounds; steps of both signs and 0"""
+    out = []
+    for _ in range(rng.randint(3, 6)):
+        q = []
+        for _k in range(2):
+            q.append(None if rng.random() < 0.3 else rng.randint(-9, 9))
+        r = rng.random()
+        q.append(None if r < 0.3 else (0 if r < 0.34 else rng.choice([1, -1, 2, -2, 3, -3, 5, -7])))
+        out.append(q)
+    return out
+
+
+def list_slice(lst, q):
+    try:
+        return lst[slice(*q)]
+    except ValueError:
+        return None
 
 
 def safe_eq(a, b):
@@ -154,6 +178,10 @@ def run_case0(c, mix):
         v._append(l, permissive=True)
         init.append(l)
     py_fail = None
+    slices = c.get("slices", DEFAULT_SLICES)
+
+    def cslice(q):
+        return "(%s, %s, %s)" % tuple("None" if x is None else f"(Some {cz(int(x))})" for x in q)
 
     def seen(ok, ret):
         i2l, l2i, stop = v.__reduce__()[2][:3]
@@ -171,12 +199,20 @@ def run_case0(c, mix):
                 idx.append(int(v.index(p)))
             except ValueError:
                 idx.append(None)
-        return ("(mkSeen %s %s %s %s %s %s %s %s)" % (
+        sl = []
+        for q in slices:
+            try:
+                sl.append(list(v[slice(*q)]))
+            except (ValueError, IndexError):
+                sl.append(None)
+        seen.slices = sl
+        return ("(mkSeen %s %s %s %s %s %s %s %s %s)" % (
             cbool(ok), copt(A.lab(ret)) if ret is not None else "None",
             clist([cpair(cnat(int(k)), A.lab(l)) for k, l in i2l.items()]),
             clist([cpair(A.lab(l), cnat(int(k))) for l, k in l2i.items()]),
             cnat(stop), clist([A.lab(l) for l in lst]), clist([cbool(b) for b in cnt]),
-            clist([copt(cnat(i)) if i is not None else "None" for i in idx])), lst)
+            clist([copt(cnat(i)) if i is not None else "None" for i in idx]),
+            clist(["None" if x is None else "(Some %s)" % clist([A.lab(l) for l in x]) for x in sl])), lst)
 
     steps = []
     nontrivial = False
@@ -240,6 +276,9 @@ def run_case0(c, mix):
                 py_fail = "indexing differs from iteration"
             elif list(v[1:]) != lst[1:] or list(v[:min(2, len(lst))]) != lst[:2] or list(v[::2]) != lst[::2]:
                 py_fail = "slicing differs from list slicing"
+            elif any(got != list_slice(lst, q) for q, got in zip(slices, seen.slices)):
+                q, got = next((q, got) for q, got in zip(slices, seen.slices) if got != list_slice(lst, q))
+                py_fail = f"v[{q[0]}:{q[1]}:{q[2]}] gives {got!r}, the list gives {list_slice(lst, q)!r};"
             elif not (v == lst) or (lst and v == lst[:-1]) or (v != lst):
                 py_fail = "equality with the list is wrong"
             # (with a numpy-integer label next to a tuple label even two plain Python lists cannot be compared
@@ -256,7 +295,8 @@ def run_case0(c, mix):
                 py_fail = "_is_range true for a non-range"
             if py_fail:
                 py_fail += f" after {name} (labels {lst!r})"
-    coq = "(mkCase %s %s %s)" % (clist([A.lab(l) for l in init]), clist([A.lab(p) for p in probes]), clist(steps))
+    coq = "(mkCase %s %s %s %s)" % (clist([A.lab(l) for l in init]), clist([A.lab(p) for p in probes]),
+                                   clist([cslice(q) for q in slices]), clist(steps))
     return {"coq": coq, "py_fail": py_fail, "nontrivial": nontrivial,
             "features": {"ops": sorted(kinds), "np_tuple_mix": mix}}
 
